@@ -128,6 +128,7 @@ func (eng *Engine) verifyFunctionTagged(fn *ssa.Function, fc *FuncContract, tag 
 		}
 	}
 	ex.run()
+	vc.fieldFacts()
 	return vc
 }
 
@@ -178,6 +179,24 @@ func (ex *exec) run() {
 			for _, p := range parts {
 				vc.assume("true", p.t)
 			}
+		}
+		for _, name := range vc.contract.Uses {
+			var lm *Lemma
+			for _, l := range vc.eng.lemmas {
+				if l.Name == name && l.Axiom && (l.Pkg == vc.contract.Pkg || l.Pkg == "") {
+					lm = l
+				}
+			}
+			if lm == nil {
+				ex.bail("uses %s: no such axiom", name)
+			}
+			t, err := env.term(lm.E)
+			if err != nil {
+				ex.bail("axiom %s: %v", name, err)
+			}
+			vc.comment("axiom " + name + ": " + lm.Text)
+			vc.assume("true", t.T)
+			vc.eng.noteAssumption("axiom (assumed, not proved) " + name + " used by " + vc.fkey + ": " + lm.Text)
 		}
 		vc.probe("vacuity.requires", "true", "preconditions and type invariants are satisfiable")
 		ex.coverObligations()
@@ -1035,6 +1054,9 @@ func (ex *exec) instr(st *State, ins ssa.Instruction) {
 		ref := vc.allocRef(st)
 		vc.heapSet(st, has, "(store "+vc.heapGet(st, has)+" "+ref+" ((as const (Array "+has.keySort+" Bool)) false))")
 		ex.setVal(x, ref)
+	case *ssa.MakeChan:
+		// a channel is an opaque reference; only its identity (a fresh allocation) is modelled
+		ex.setVal(x, vc.allocRef(st))
 	case *ssa.MapUpdate:
 		mt := x.Map.Type().Underlying().(*types.Map)
 		has, val := vc.mapHeaps(mt)
@@ -1889,6 +1911,9 @@ func (ex *exec) autoCandidates(li *loopInfo, pre, st *State, modLocals []*ssa.Al
 	}
 }
 
+// houdiniTimeoutS: per-candidate solver timeout; raised for the second-chance pass of a check.
+var houdiniTimeoutS = 8
+
 // verifyHoudini runs the generator until the set of inferred candidate invariants is inductive.
 func (eng *Engine) verifyHoudini(run func(drop map[string]bool) *VC) *VC {
 	drop := map[string]bool{}
@@ -1908,7 +1933,7 @@ func (eng *Engine) verifyHoudini(run func(drop map[string]bool) *VC) *VC {
 			return vc
 		}
 		scratch := scratchDir()
-		solveAll(autos, solveOpts{timeoutS: 8, scratch: scratch, workers: 12})
+		solveAll(autos, solveOpts{timeoutS: houdiniTimeoutS, scratch: scratch, workers: 12})
 		os.RemoveAll(scratch)
 		changed := false
 		for _, o := range autos {
